@@ -444,6 +444,10 @@ def generate(seed, tier):
         _history_batch(sc, r)
     elif r.random() < 0.3:
         _crossing_batch(sc, r)
+    if r.random() < 0.2:
+        # a kernel with sub-policies, marks or interface ids: its ACQUIRE / EXPIRE events carry XFRMA_POLICY_TYPE, XFRMA_MARK, XFRMA_IF_ID
+        sc['kernel_event_attrs'] = r.sample(['policy_type', 'mark', 'if_id'], r.randint(1, 3))
+        sc['meta']['kernel_event_attrs'] = True
     return sc
 
 
